@@ -24,3 +24,18 @@ prop("C19", level="proof", runtime=True,
                   "train() of the scikit/SMT subclasses is assumed to set `trained` and leave counters and data alone",
                   "problem.surrogate is the surrogate itself (true at every construction site); train_step != 0"],
      not_decided=[])
+prop("C05", level="proof", runtime=True,
+     assumptions=["A2: objective / constraint functions are arbitrary user code returning fresh lists; the ghost call log "
+                  "(ghost_calls, ghost_last_*) is part of that assumed contract",
+                  "default pass-through surrogate (ghost flag `passthrough`) for the exactly-once clauses",
+                  "serial evaluation (max_processes <= 1); evaluate_parallel is assumed (see C07)",
+                  "designs of one batch have pairwise distinct costs / costs_signed lists and feature dicts",
+                  "np.round is an uninterpreted function round_dec(x, n); products sign*value uninterpreted (functional)",
+                  "Problem.__init__: only the sign loop is verified (region contract)",
+                  "scipy.optimize.minimize / nlopt.opt are external: call-site obligation only (the callable is evaluate_scalar)"],
+     not_decided=["NLopt.run's set_min_objective call site (nlopt object model not built)"])
+prop("C06", level="proof", runtime=True,
+     assumptions=["A2 as in C05; an exception other than TimeoutError/RuntimeError is modelled as one class `OtherError`",
+                  "A1: gen_number over the reals (|round(x/p)*p - x| <= p/2)",
+                  "parameters have bounds with lb <= ub, no 'parameter_type' key (real parameters)"],
+     not_decided=["failures in parallel workers (C07)"])
